@@ -3,7 +3,7 @@
    the model is tied to the real generator and to the compiled output by the correspondence
    stream core-c02. Only statements, each closed by [exact]. *)
 From Coq Require Import List NArith ZArith Bool.
-From GV Require Import Base Ty Conf Val Plan Eval EvalFacts AllocFacts.
+From GV Require Import Base Ty Conf Val Plan Eval EvalFacts AllocFacts PanicFacts.
 Import ListNotations.
 Open Scope N_scope.
 
@@ -39,6 +39,18 @@ Theorem C02_map_entries : forall e M F f cx k v i kvs old st r st',
   exists rs, r = VMap st rs /\ length rs = length kvs.
 Proof. exact eval_map_nonnil. Qed.
 
+(* never panic: the emitted templates have exactly three places that can panic - the loop filling a slice from a fixed
+   array without making it (AList true / PMakeList: finding F-C02-1), the dereference of a default FUNC's result
+   (ADerefTgt) and an enum switch with the @panic policy. Plans (and method tables) without them never panic: for all
+   values, contexts, custom-function tables and fuel. *)
+Theorem C02_no_panic : forall e M F, pf_table M -> forall fuel cx,
+  np_v (eval_v e M F fuel cx) /\ np_a (eval_a e M F fuel cx).
+Proof. exact no_panic. Qed.
+(* ... and F-C02-1 is exactly the excluded case: an array filled into a nil slice panics on its first element *)
+Theorem C02_array_into_nil_slice_panics : forall e M F f cx el v vs st,
+  eval_a e M F (S (S f)) cx (AList true el (ASet PId)) (VArr (v :: vs)) VNil st = Panicked.
+Proof. reflexivity. Qed.
+
 Print Assumptions C02_basic_unchanged.
 Print Assumptions C02_pointer_nil.
 Print Assumptions C02_pointer_nonnil.
@@ -46,3 +58,5 @@ Print Assumptions C02_slice_nil.
 Print Assumptions C02_slice_length.
 Print Assumptions C02_map_nil.
 Print Assumptions C02_map_entries.
+Print Assumptions C02_no_panic.
+Print Assumptions C02_array_into_nil_slice_panics.
